@@ -27,7 +27,7 @@ SUBJECT = {
     "alg": "/repo/src/psyclone/tests/test_files/dynamo0p3/1_single_invoke.f90",
     "base": "testkern",
 }
-STALL_S = 120            # a blocked handshake longer than this is a machinery failure
+STALL_S = 300            # a blocked handshake longer than this is a machinery failure
 
 
 class Stall(Exception):
